@@ -182,6 +182,41 @@ func NilVsEmpty(a Annot, tags []tagVariant) []*Shape {
 	return out
 }
 
+// JSONClosedKinds: interface-typed locations (any, map[string]any, []any, a struct holding an any)
+// whose values are drawn from the closed set that encoding/json itself produces for an interface
+// location - float64, string, bool, nil, map[string]any and []any of those. Such values survive
+// their own encoding with their dynamic types, so the full round trip (reflect.DeepEqual) is
+// demanded of them; the weaker treatment stays for values outside the set (int, named types,
+// errors, Stringers).
+var JSONClosedKinds = []*Kind{
+	{ID: "any-float", Type: "any", Vals: simple("any(float64(%[1]d.5))", "any(float64(3))"), Omit: "yes", JWrong: ""},
+	{ID: "any-bool-string", Type: "any", Vals: simple("any(true)", `any("s%[1]d")`), Omit: "yes"},
+	{ID: "any-map-slice", Type: "any", Vals: simple(`any(map[string]any{"k": float64(%[1]d), "s": "x"})`, `any([]any{float64(%[1]d), "x", true, nil})`), Omit: "yes"},
+	{ID: "map-string-any", Type: "map[string]any", Vals: simple(`map[string]any{"k": float64(%[1]d), "s": "x", "b": false, "n": nil, "m": map[string]any{"i": float64(2)}}`, "map[string]any(nil)"),
+		Omit: "yes", JEmpty: [2]bool{false, true}, JWrong: `5`},
+	{ID: "slice-any", Type: "[]any", Vals: simple(`[]any{float64(%[1]d), "x", nil, []any{float64(1)}, map[string]any{"k": float64(1.25)}}`, "[]any(nil)"),
+		Omit: "yes", JEmpty: [2]bool{false, true}, JWrong: `5`},
+	{ID: "struct-any", Type: "struct{ V any }", Vals: simple("struct{ V any }{V: float64(%[1]d)}", "struct{ V any }{}"), Omit: "no", JWrong: `5`},
+	{ID: "opt-any", Type: "fp.Option[any]", Imports: []string{fpImp}, Vals: simple("option.Some[any](float64(%[1]d))", "option.None[any]()"),
+		Opt: true, OptElem: func(Env) string { return "any" }, OptVals: simple("any(float64(%[1]d))", `any("s%[2]d")`), Omit: "yes"},
+}
+
+// JSONClosed: the kinds above as private and public one-field structs with each tag variant, and a
+// three-field struct holding an any, a map[string]any and a []any.
+func JSONClosed(a Annot, tags []tagVariant) []*Shape {
+	var out []*Shape
+	for _, tg := range tags {
+		for _, v := range []string{"priv", "pub"} {
+			for _, k := range JSONClosedKinds {
+				out = append(out, mkShape("json-closed-values", a, []Form{{v, k}}, []tagVariant{tg}))
+			}
+		}
+		k := kindByID
+		out = append(out, mkShape("json-closed-values", a, []Form{{"priv", k("any-float")}, {"pub", k("map-string-any")}, {"priv", k("slice-any")}}, []tagVariant{tg, tg, tg}))
+	}
+	return out
+}
+
 // EmbKinds are the embedded-field forms.
 var EmbKinds = []*Kind{
 	{ID: "Pub", Type: "Pub", Emb: true, EmbName: "Pub", Vals: simple("Pub{X: %[1]d}", "Pub{}"), JWrong: `5`},
@@ -210,6 +245,11 @@ func kindByID(id string) *Kind {
 		}
 	}
 	for _, k := range NilVsEmptyKinds {
+		if k.ID == id {
+			return k
+		}
+	}
+	for _, k := range JSONClosedKinds {
 		if k.ID == id {
 			return k
 		}
